@@ -4,7 +4,7 @@
 # every worker gets its own copy of /repo (at HEAD) and of /verif (harness with the replace directive
 # pointing at that copy) under /dev/shm/parsweep.<pid>/<k>/ and processes every <workers>-th line of the list.
 # List lines:  <label> <patch file> <check id> [<check id> ...]
-# Output lines: <label>|<check>|<exit>|<first signatures>
+# Output lines: <label>|<check>|<exit>|exhaustive=<bool>|<first signatures>
 # The copies are removed at the end. Results are for reading only: evidence is never written to /verif.
 set -u
 export GOFLAGS=-mod=mod GOPROXY=off GOSUMDB=off GOTOOLCHAIN=local
@@ -27,7 +27,8 @@ worker() {
       (cd "$D/verif" && VERIF_DIR="$D/verif" VERIF_REPO="$D/repo" timeout 2400 bin/vcheck run "$c" --tier quick --jobs "${PAR_JOBS:-6}" > "$D/out.txt" 2>&1); rc=$?
       sig=$(grep -v '^KNOWN' "$D/out.txt" | grep -m3 'signature:' | sed 's/ *signature: //' | tr '\n' ';' | tr '|' '/')
       int=$(grep -m1 -A2 "INTERNAL" "$D/out.txt" | tr "\n" " " | cut -c1-1500 | tr '|' '/')
-      echo "$label|$c|$rc|$sig$int" >> "$OUT"
+      ex=$(grep -o -m1 'exhaustive=[a-z]*' "$D/out.txt" | head -1)
+      echo "$label|$c|$rc|$ex|$sig$int" >> "$OUT"
     done
     git -C "$D/repo" checkout -q -- . ; git -C "$D/repo" clean -fdq
   done < "$LIST"
